@@ -114,8 +114,7 @@ struct ConnSim {
     }
     void on_rto(int side) {
         Half& x = h[side]; if (dead || x.state == 4) return;
-        if (x.state == 1) { send_syn(side); return; }
-        if (x.state == 2) { send_synack(side); return; }
+        if (x.state == 1 || x.state == 2) { if (++x.rtx_count > 5) { x.state = 4; return; } w.faults["fault.retransmit"]++; if (x.state == 1) send_syn(side); else send_synack(side); return; }
         const size_t L = c.data[side].size();
         if (x.una >= L && (!x.fin_sent || x.fin_acked)) return;
         if (++x.rtx_count > 60) return;     // give up (connection stays half-open)
